@@ -32,9 +32,6 @@ def gen_cases(r, scale):
             if rnd.random() < 0.2 and code:
                 code = code[: rnd.randrange(len(code))]
                 kind = "truncated"
-            if rnd.random() < 0.08:
-                code = [rnd.randrange(256) for _ in range(rnd.randrange(0, 16))]
-                kind = "random-bytes"
             cases.append({"table": name, "code": code, "kind": kind})
     # real code objects of the historical corpus
     files = IG.corpus_files(limit_per_dir=2 if scale == 1 else None)
